@@ -29,11 +29,13 @@ impl W {
     fn new(cfg: &CfgSpec, seed: u64) -> W {
         W { world: World::new(cfg.to_main_config(), seed), conn: BTreeMap::new(), log: vec![] }
     }
-    fn register(&mut self, nick: &str) {
+    fn register(&mut self, nick: &str, shared_user: bool) {
         let c = self.world.connect();
         self.conn.insert(nick.to_string(), c);
         self.world.send_line(c, &format!("NICK {}", nick));
-        self.world.send_line(c, &format!("USER u{} 0 * :Real {}", nick, nick));
+        // (in some worlds everybody logs in under the same user name, as behind a web gateway)
+        let user = if shared_user { "webchat".to_string() } else { format!("u{}", nick) };
+        self.world.send_line(c, &format!("USER {} 0 * :Real {}", user, nick));
         self.world.settle();
         self.drain_all();
     }
@@ -244,15 +246,38 @@ fn query_form(q: &str) -> String {
     format!("{}:{}", v, form)
 }
 
+// In a quarter of the secret-channel cases the channel is declared in the configuration
+// (`secret = true`, possibly with topic and other flags) instead of being made secret by MODE.
+fn hidden_channel_from_config(seeds: &[u16], script: &[(String, String, bool)]) -> Option<crate::cfgspec::ChanSpec> {
+    if seeds.get(2).copied().unwrap_or(1) % 4 != 0 {
+        return None;
+    }
+    let (_, line, _) = script.iter().find(|(_, l, h)| *h && l.starts_with("MODE ") && l.ends_with(" +s"))?;
+    let name = line.split(' ').nth(1)?.to_string();
+    let k = seeds.get(3).copied().unwrap_or(0);
+    Some(crate::cfgspec::ChanSpec {
+        name,
+        topic: if k % 2 == 0 { Some("configured secret".into()) } else { None },
+        flags: ["s", "sn", "st", "snt"][(k as usize / 2) % 4].to_string(),
+        ..Default::default()
+    })
+}
+
 pub fn check(c: &PairCase, st: &mut Stats) -> Result<(), Viol> {
     let (cfg, script, nicks, hidden_kind, obs_kind, queries) = build(&c.seeds);
     let seed = c.seeds.get(0).copied().unwrap_or(0) as u64;
-    let mut w1 = W::new(&cfg, seed);
+    // the secret channel may come from the configuration file of the world that has it
+    let mut cfg1 = cfg.clone();
+    if let Some(ch) = hidden_channel_from_config(&c.seeds, &script) {
+        cfg1.channels.push(ch);
+    }
+    let shared_user = c.seeds.get(1).copied().unwrap_or(0) % 4 == 0;
+    let mut w1 = W::new(&cfg1, seed);
     let mut w0 = W::new(&cfg, seed);
     for n in &nicks {
-        w1.register(n);
+        w1.register(n, shared_user);
         if !(hidden_kind == "invisible-user" && n == "nh") {
-            w0.register(n);
+            w0.register(n, shared_user);
         }
     }
     let mut hidden_ops = 0;
